@@ -15,6 +15,7 @@ outside static reach.
 from __future__ import annotations
 
 import ast
+import re
 
 from ..model import AnchorError, norm, walk_no_nested
 from ..util import cfg_of, node_calls, call_attr, assigned_attrs, kill_of_container_key
@@ -24,27 +25,24 @@ EXPLANATION = __doc__
 FE = "openpectus.aggregator.aggregator:FromEngine"
 
 
-def run(ctx) -> None:
+def restore_rules(ctx, RULE: str) -> None:
+    """The reconnect-restore clauses (shared with C30, whose duplicate/ignore decisions rest on has_run())."""
     prog = ctx.prog
-    for r, d in [("R28a", "restore on register"), ("R28b", "store before delete on disconnect"),
-                 ("R28c", "shutdown stores every engine"), ("R28d", "store_recent_engine run fields"),
-                 ("R28e", "tag values persisted under restored run id")]:
-        ctx.rule(r, d)
     reg = prog.func(f"{FE}.register_engine_data")
     ctx.analysed(reg)
     g = cfg_of(reg)
     p = g.path_to_exit_avoiding(None, lambda n: node_calls(n, "_try_restore_reconnected_engine_data"))
     if p is not None:
-        ctx.fail("R28a", reg, reg.node, "register_engine_data must-call _try_restore_reconnected_engine_data",
+        ctx.fail(RULE, reg, reg.node, "register_engine_data must-call _try_restore_reconnected_engine_data",
                  "a path registers the engine without restoring the data of its active run", p)
     else:
-        ctx.ok("R28a", "register_engine_data must-call _try_restore_reconnected_engine_data")
+        ctx.ok(RULE, "register_engine_data must-call _try_restore_reconnected_engine_data")
     # the map write must exist too
     if not any(isinstance(t, ast.Subscript) and "_engine_data_map" in norm(t.value)
                for n in walk_no_nested(reg.node) if isinstance(n, ast.Assign) for t in n.targets):
-        ctx.fail("R28a", reg, reg.node, "register_engine_data writes _engine_data_map", "engine data not stored in map")
+        ctx.fail(RULE, reg, reg.node, "register_engine_data writes _engine_data_map", "engine data not stored in map")
     else:
-        ctx.ok("R28a", "register_engine_data writes _engine_data_map[engine_id]")
+        ctx.ok(RULE, "register_engine_data writes _engine_data_map[engine_id]")
 
     rest = prog.func(f"{FE}._try_restore_reconnected_engine_data")
     ctx.analysed(rest)
@@ -56,7 +54,7 @@ def run(ctx) -> None:
                 if t.attr == "run_data":
                     assigns.append((n, v))
     if not assigns:
-        ctx.fail("R28a", rest, rest.node, "_try_restore: engine_data.run_data = RunData(run_id=recent.run_id)", "run data never restored")
+        ctx.fail(RULE, rest, rest.node, "_try_restore: engine_data.run_data = RunData(run_id=recent.run_id)", "run data never restored")
     for n, v in assigns:
         facts = facts_at(g, n)
         has_run_branch = any(("run_id is" in a and "None" in a and not pol) for a, pol in facts)
@@ -73,27 +71,60 @@ def run(ctx) -> None:
         rid_src = norm(expand_local(rid, defs)) if rid is not None else ""
         inst = f"_try_restore: {n.text()}"
         if not has_run_branch:
-            ctx.fail("R28a", rest, n.ast, inst, "restore of run data is not on the branch `recent_engine.run_id is not None`")
+            ctx.fail(RULE, rest, n.ast, inst, "restore of run data is not on the branch `recent_engine.run_id is not None`")
         elif not rid_src.endswith(".run_id") or "recent" not in rid_src:
-            ctx.fail("R28a", rest, n.ast, inst, f"restored run id does not come from the stored recent engine (is `{rid_src}`): the "
+            ctx.fail(RULE, rest, n.ast, inst, f"restored run id does not come from the stored recent engine (is `{rid_src}`): the "
                      "run would continue under a different id")
         else:
-            ctx.ok("R28a", inst)
+            ctx.ok(RULE, inst)
     # the restore branch must be reachable on all paths where recent_engine.run_id is not None
     tests = [n for n in g.nodes if n.kind == "test" and "run_id is not None" in norm(n.ast)]
     if tests and assigns:
         t = tests[0]
         p = g.path_to_exit_avoiding([(t.id, "T")], lambda n: any(n.id == a.id for a, _ in assigns))
         if p is not None:
-            ctx.fail("R28a", rest, t.ast, "_try_restore: all paths with stored run id restore run data",
+            ctx.fail(RULE, rest, t.ast, "_try_restore: all paths with stored run id restore run data",
                      "a path with a stored run id leaves run data unset", p)
         else:
-            ctx.ok("R28a", "_try_restore: all paths with stored run id restore run data")
+            ctx.ok(RULE, "_try_restore: all paths with stored run id restore run data")
+    # the restore may be skipped only because nothing is stored: every path that leaves run data unset must leave a test
+    # that is exactly `<recent> is not None` / `<recent>.run_id is not None` on its false edge (no further conjunct may
+    # narrow the restore: the stored run id alone says that a run was active)
+    if assigns:
+        def only_absent(src: int, dst: int, lab: str) -> bool:
+            n = g.nodes[src]
+            if n.kind != "test" or not isinstance(n.ast, ast.Compare) or len(n.ast.ops) != 1:
+                return False
+            txt = norm(n.ast)
+            if isinstance(n.ast.ops[0], ast.IsNot) and txt.endswith(" is not None") and ("recent" in txt):
+                return lab == "F" and (txt.endswith(".run_id is not None") or re.fullmatch(r"\w+ is not None", txt) is not None)
+            if isinstance(n.ast.ops[0], ast.Is) and txt.endswith(" is None") and ("recent" in txt):
+                return lab == "T" and (txt.endswith(".run_id is None") or re.fullmatch(r"\w+ is None", txt) is not None)
+            return False
+        skip = g.search([g.entry.id], lambda n: n.kind == "exit", blocked=lambda n: any(n.id == a.id for a, _ in assigns),
+                        follow_exc=False, blocked_edge=only_absent)
+        inst = "_try_restore: run data is left unset only when no recent engine / no run id is stored"
+        if skip:
+            conds = [x.text() for x in skip if x.kind == "test"]
+            ctx.fail(RULE, rest, rest.node, inst, "a path skips the restore although a run id may be stored (the restore is narrowed by "
+                     f"a further condition): {' ; '.join(conds)[:300]}")
+        else:
+            ctx.ok(RULE, inst)
     contrib = [t for t, v, st in assigned_attrs(rest.node) if t.attr == "contributors"]
     if contrib:
-        ctx.ok("R28a", "_try_restore: contributors restored")
+        ctx.ok(RULE, "_try_restore: contributors restored")
     else:
-        ctx.fail("R28a", rest, rest.node, "_try_restore: contributors restored", "contributors of the run are not restored")
+        ctx.fail(RULE, rest, rest.node, "_try_restore: contributors restored", "contributors of the run are not restored")
+
+
+
+def run(ctx) -> None:
+    prog = ctx.prog
+    for r, d in [("R28a", "restore on register"), ("R28b", "store before delete on disconnect"),
+                 ("R28c", "shutdown stores every engine"), ("R28d", "store_recent_engine run fields"),
+                 ("R28e", "tag values persisted under restored run id")]:
+        ctx.rule(r, d)
+    restore_rules(ctx, "R28a")
 
     # ---- R28b
     dis = prog.func(f"{FE}.engine_disconnected")
